@@ -6,7 +6,7 @@
    assigns one word per property ([vals]); [encode_record] / [encode_vertices_*] / [enc_face_*] are the reference
    encoder of the specification's grammar (ascii tokens, little- and big-endian bytes).  The reader model is
    [read_vertices_bin/ascii] with the built readers [bs], [faces_bin], [parse_header]. *)
-From PF Require Import Base.Bytes Formats.PlyRead Formats.PlyReadSpec Formats.PlyReadProofs Formats.PlyReadMesh.
+From PF Require Import Base.Bytes Formats.PlyRead Formats.PlyReadSpec Formats.PlyReadProofs Formats.PlyReadMesh Formats.PlyText Formats.PlyTextProofs.
 From Coq Require Import String Lia.
 Open Scope list_scope.
 Open Scope N_scope.
@@ -194,12 +194,23 @@ Print Assumptions quad_fan_ascii_partial.
 (* ---- comment and obj_info lines, blank lines, aliases ---- *)
 
 (* noise lines inserted anywhere between the format line and end_header change neither the format nor the
-   declared elements and properties (only the comment list); CRLF is removed by the tokenizer, outside the model *)
+   declared elements and properties (only the comment list); for CRLF see [crlf_ignored] *)
 Theorem header_noise_ignored : forall magic fl body noisy,
   fl <> [] -> with_noise body noisy ->
   strip_comments (parse_header (magic :: fl :: noisy)) = strip_comments (parse_header (magic :: fl :: body)).
 Proof. exact header_noise_ignored_proof. Qed.
 Print Assumptions header_noise_ignored.
+
+(* CRLF header line endings, inside the model: [header_lines] is readLine (split at '\n', every '\r' dropped) followed
+   by strings.Fields; a header text with CRLF line ends gives the parser exactly the lines of the LF text ... *)
+Theorem crlf_ignored : forall text, header_lines (crlf text) = header_lines text.
+Proof. exact crlf_ignored_proof. Qed.
+Print Assumptions crlf_ignored.
+
+(* ... and, more generally, two header texts that differ only in carriage returns, wherever they stand *)
+Theorem cr_ignored : forall t1 t2, strip_cr t1 = strip_cr t2 -> header_lines t1 = header_lines t2.
+Proof. exact cr_ignored_proof. Qed.
+Print Assumptions cr_ignored.
 
 (* char/int8, uchar/uint8, short/int16, ushort/uint16, int/int32, uint/uint32, float/float32, double/float64 *)
 Theorem aliases_same_type : Forall (fun p => same_type (fst p) (snd p)) alias_pairs.
